@@ -318,7 +318,10 @@ def run(pid, tier, seed, replay):
     mc(chk, 3, 1, "both", "threads", 1, 1, 0)
     mc(chk, 3, 1, "both", "asyncio", 1, 1, 3)
     if not quick:
-        mc(chk, 3, 2, "both", "threads", 1, 1, 0, timeout=3000)
+        # (3 senders x 2 events with a nested send AND a failure does not finish in an hour; each on its own does:
+        #  22M and 15M distinct states)
+        mc(chk, 3, 2, "both", "threads", 0, 1, 0, timeout=3000)
+        mc(chk, 3, 2, "both", "threads", 1, 0, 0, timeout=3000)
         mc(chk, 4, 1, "both", "asyncio", 1, 1, 3, timeout=3000)
     apalache(chk, quick)
     # the rejected designs stay documented by their counterexamples
